@@ -281,6 +281,17 @@ func directedWiring() []proto.Case {
 	return []proto.Case{
 		mk("d-docker", "wcfg interval=1 n=5 period=7 cooldown=300 rate=0 max=5 t0=1700000000000000000 acc=none", "dockerenv", U, U, U, U, U, U, U, U, U, H, H, H, H, H, H, H, H, H),
 		mk("d-cycle", cfg("1.1.1.0"), H, U, U, U, H, H, H),
+		// two full episodes (the second `unhealthy` reaction is the third call of the immediate un-manage path), for
+		// every shape of plugins: global diagnosis as the only reason for manage-all + endpoint remedy, endpoint
+		// diagnosis with / without a remedy on the same endpoint, nothing to un-manage at all
+		mk("d-two-episodes-g-r", cfg("1.1.0.1"), U, U, H, H, U, U, H, H, U, U),
+		mk("d-two-episodes-g-e", cfg("1.1.1.0"), U, U, H, H, U, U, H, H, U, U),
+		mk("d-two-episodes-e-r", cfg("1.0.1.1"), U, U, H, H, U, U, H, H, U, U),
+		mk("d-two-episodes-e", cfg("1.0.1.0"), U, U, H, H, U, U, H, H, U, U),
+		mk("d-two-episodes-g", cfg("1.1.0.0"), U, U, H, H, U, U, H, H, U, U),
+		mk("d-two-episodes-all", cfg("1.1.1.1"), U, U, H, H, "write 2.1.0.1", "reload", U, U, H, H, U, U),
+		mk("d-two-episodes-none", cfg("1.0.0.0"), U, U, H, H, U, U, H, H),
+		mk("d-two-episodes-admin-refuses", cfg("1.1.1.1"), "admin fail", U, U, H, H, "admin ok", U, U, "admin fail", H, H, "revert free", "revert last"),
 		mk("d-two-reloads", cfg("1.1.1.0"), "write 2.1.0.0", "reload", "write 3.0.1.1", "reload", U, U, U, H, H),
 		mk("d-reload-while-unhealthy", cfg("1.1.1.0"), U, U, "write 2.1.1.0", "reload", U, H, H),
 		mk("d-failed-unhealthy-revert", cfg("1.1.0.1"), "admin fail", U, U, "admin ok", U, U, H, H),
